@@ -162,7 +162,7 @@ def run_shard(spec):
                 l["cells"][0]["id"] = gen.new_id()
                 rm["cells"][0]["id"] = gen.new_id()
                 cls = "both_change_id"
-            cfg = {"merge": "mergetool", "input": None, "output": None, "ignore_transients": k % 2 == 0}
+            cfg = {"merge": "mergetool", "input": None, "output": None, "ignore_transients": r.random() < 0.7}
             nbd.hygiene()
             try:
                 merged, dec = nbd.merge_notebooks(to_node(b), to_node(l), to_node(rm), merge_args(cfg))
